@@ -91,7 +91,7 @@ pub fn run_check(id: &str, tier: Tier) -> i32 {
             }
         }
         "C09" => {
-            ctx.rule("same histories; oracle: pre-state/post-state relation on the observed lease table; non-trivial = a holder asks again while holding a second lease / naming another address / after a pool change, or a refusal for lack of addresses; the clock is also placed one second before, at and after a client's expiry (no snapping), where only the reading-independent part is judged: a refusal needs every pool address held by another client whose lease may still be running");
+            ctx.rule("same histories; oracle: pre-state/post-state relation on the observed lease table; non-trivial = a holder asks again while holding a second lease / naming another address / after a pool change, or a refusal for lack of addresses; the clock is also placed one second before, at and after a client's expiry (no snapping), where only the reading-independent part is judged: a refusal needs every pool address held by another client whose lease may still be running; after every step each stored row must run exactly as long as its holder was last told (ledger of replies kept by the oracle); one client in eight has a hardware address of 5, 8 or 16 octets; enumerated long-lived histories (6..14 renewals up to the 24 h maximum, restarts, return after expiry) run first");
             props_dhcp::run_hist_func(&ctx, id);
             if ctx.violations.lock().unwrap().is_empty() {
                 ctx.rule("one-address-left: pools of 1..150 addresses (thorough: every size 1..200) in which every address but one is held by its own client; enumerated over every position of the free address: a newcomer must be given exactly that address, never refused; non-trivial = pool of at least two addresses");
@@ -114,7 +114,7 @@ pub fn run_check(id: &str, tier: Tier) -> i32 {
             ctx.rule("same histories with every message type 0..255/absent and server-id kinds; oracle: frame condition on the lease table + header echo; non-trivial = an unanswered message arriving while the sender already has a row");
             props_dhcp::run_hist_func(&ctx, id);
             if ctx.violations.lock().unwrap().is_empty() {
-                ctx.rule("policy-options: generated configurations (policy trees whose apply-* options include server-id as an address or null) x parameter request lists (any codes, incl. 54) through the real loader; DISCOVER then REQUEST through handle_pkt: both replies carry a server identifier naming this server and the right message type; non-trivial = an applied policy names server-id and the client asks for it");
+                ctx.rule("policy-options: generated configurations (policy trees whose apply-* options include server-id as an address or null) x parameter request lists (any codes, incl. 54) through the real loader; DISCOVER then REQUEST through handle_pkt: both replies carry a server identifier naming this server and the right message type, echo xid / hardware address (5, 6, 8 or 16 octets, with type-1 and opaque client identifiers) / relay address / flags, and change no row but the one they assign; non-trivial = an applied policy names server-id and the client asks for it");
                 props_policy::run_reply_invariants(&ctx, "C13");
             }
         }
@@ -135,7 +135,7 @@ pub fn run_check(id: &str, tier: Tier) -> i32 {
             ctx.rule("upgraded-db: the same walk over a lease file written in the layout of an older release (no version row / version 0 / version 1 whose option blobs are NULL), 1..8 pre-existing rows owned by world clients or strangers, active and expired, followed by a generated history; non-trivial = rows written before the option column existed are still stored at the end");
             props_dhcp::run_c20_func(&ctx);
             if wire_ok && ctx.violations.lock().unwrap().is_empty() {
-                ctx.rule("wire-listing: 2..40 (thorough 250) DHCP clients whose client-identifier and host-name options are drawn from byte strings 0..255 with quotes, backslashes, C0 controls, DEL, invalid UTF-8, multi-byte and U+2028 against the real erbium; GET /api/v1/leases.json must parse with a strict JSON parser and be in bijection (address, client id bytes, start, expiry) with the rows read from the same SQLite file; gauges from /metrics equal the harness's count before any generated lease, when first scraped over TCP by a client whose rule grants http-metrics and nothing else, and after ageing every n-th row; eight times a burst of 30 back-to-back DISCOVERs from new clients is sent and the gauges are scraped while the server is still working through it: the scrape, taken between two listings, must report a count between theirs");
+                ctx.rule("wire-listing: 2..40 (thorough 250) DHCP clients whose client-identifier and host-name options are drawn from byte strings 0..255 with quotes, backslashes, C0 controls, DEL, invalid UTF-8, multi-byte octets, and strings of whole characters (U+2028/2029, NEL, NBSP, BOM, U+FFFD, noncharacters, first and last code point of each encoded length, bidi override, combining accent) against the real erbium; GET /api/v1/leases.json must parse with a strict JSON parser and be in bijection (address, client id bytes, start, expiry) with the rows read from the same SQLite file; gauges from /metrics equal the harness's count before any generated lease, when first scraped over TCP by a client whose rule grants http-metrics and nothing else, and after ageing every n-th row; eight times a burst of 30 back-to-back DISCOVERs from new clients is sent and the gauges are scraped while the server is still working through it: the scrape, taken between two listings, must report a count between theirs");
                 props_netwire::run_c20_wire(&ctx);
             }
         }
@@ -144,11 +144,12 @@ pub fn run_check(id: &str, tier: Tier) -> i32 {
             props_codec::run_c12_func(&ctx);
             if wire_ok && ctx.violations.lock().unwrap().is_empty() {
                 ctx.rule("wire-dhcp-exchange: DISCOVER, REQUEST and two renewals with ciaddr filled in (the flag value as sampled and with bit 15 inverted) against the real erbium-dhcp over a veth pair; captured frames decoded by the independent Ethernet/IPv4/UDP decoder: IPv4 destination is 255.255.255.255 iff bit 15, else yiaddr; Ethernet destination = chaddr; reply echoes xid/flags");
+                ctx.rule("wire-large-replies: the real erbium-dhcp configured with search lists of 0..26 domains and portal URLs of 20..250 octets (quick: 7 configurations, thorough 81), four parameter request lists each, so that replies run from 300 octets to beyond what one frame on the link carries; every frame that appears is decoded in full (lengths, checksums, option walk up to the end option) and options 114 and 119 must carry the configured values; no frame is accepted for a reply that cannot fit, provided the server answers the next small request");
                 props_netwire::run_c12_wire(&ctx);
             }
         }
         "C14" => {
-            ctx.rule("structured: generated messages (1..2000 records, names sharing suffixes at every depth incl. ladders in which the k-th name extends the (k-1)-th by one label up to 126 levels (pointer chains as long as the name), all rdata kinds, EDNS options) -> erbium DNSPkt -> serialise -> crate parser (equality) and independent RFC 1035 decoder (field-by-field at RFC bit positions, pointer audit); bytes: harness-encoded messages under three compression modes with 0..2 byte edits, accepted inputs re-encoded and compared; non-trivial = pointer inside rdata, or > 16 KiB, or EDNS options / accepted multi-record input");
+            ctx.rule("structured: first an enumerated sweep (a name first written at every offset 0x3fe8..0x4003, as owner and inside rdata, then reused whole, extended and by each suffix); then generated messages (1..2000 records, names sharing suffixes at every depth incl. ladders in which the k-th name extends the (k-1)-th by one label up to 126 levels (pointer chains as long as the name), all rdata kinds, EDNS options) -> erbium DNSPkt -> serialise -> crate parser (equality) and independent RFC 1035 decoder (field-by-field at RFC bit positions, pointer audit); bytes: harness-encoded messages under three compression modes with 0..2 byte edits, accepted inputs re-encoded and compared; non-trivial = pointer inside rdata, or > 16 KiB, or EDNS options / accepted multi-record input");
             props_codec::run_c14_func(&ctx);
             fuzzdrv::run_for(&ctx, "C14");
         }
@@ -161,7 +162,7 @@ pub fn run_check(id: &str, tier: Tier) -> i32 {
             }
         }
         "C07" => {
-            ctx.rule("concurrent: (1) every listener family (127.0.0.1, 0.0.0.0, ::1, ::) x UDP to several local destination addresses / TCP in one write / TCP with the length prefix split over segments; (2) enumerated drop patterns over the upstream transmissions (quick: all with <= 2 losses + all lost; thorough: all 32), run concurrently; (3) generated sets of up to 48 (thorough 256) queries in flight on a fresh server each, per-question upstream script: delay 0..1500 ms (arbitrary reordering), 0..2 duplicates, wrong id first (forces the TCP retry), TC (forces TCP), losses; oracle: exactly one response per query within the server's own back-off bound (late duplicates collected for 1.5 s), carrying its own question and own answer, SERVFAIL iff the upstream never answered, <= 5 transmissions, response source == query destination, complete TCP frames, no task panic; non-trivial = a query whose upstream exchange was disturbed or whose TCP request came in several segments");
+            ctx.rule("concurrent: (1) every listener family (127.0.0.1, 0.0.0.0, ::1, ::) x UDP to several local destination addresses / TCP in one write / TCP with the length prefix split over segments; (2) enumerated drop patterns over the upstream transmissions (quick: all with <= 2 losses + all lost; thorough: all 32), run concurrently; (3) generated sets of up to 48 (thorough 256) queries in flight on a fresh server each, per-question upstream script: delay 0..1500 ms (arbitrary reordering), 0..2 duplicates, wrong id first (forces the TCP retry), TC (forces TCP), losses; oracle: exactly one response per query within the server's own back-off bound (late duplicates collected for 1.5 s), carrying its own question and own answer, SERVFAIL iff the upstream never answered, <= 5 transmissions, response source == query destination, complete TCP frames, no task panic; non-trivial = a query whose upstream exchange was disturbed or whose TCP request came in several segments; (late reply) one TCP-path query whose upstream reply comes 11.5 s late (SERVFAIL or the answer), then thirteen more TCP-path queries, each of which must get its own answer; a SERVFAIL for a query the healthy upstream was never asked is a violation of its own");
             ctx.assume("tokio's task interleaving inside the server is exercised by real concurrency and repetition, not enumerated");
             if !wire_ok {
                 ctx.set_inconclusive("C07 is decided on the wire only and the wire rig is unavailable");
@@ -170,7 +171,7 @@ pub fn run_check(id: &str, tier: Tier) -> i32 {
             }
         }
         "C15" => {
-            ctx.rule("routes: generated route tables (1..6 routes, 0..4 suffixes each over a 7-label alphabet so nesting and siblings are common, \"\" default, forward / forge-nxdomain; one scripted upstream per forward route; suffixes optionally written in upper case) x 4..30 names (suffix + 0..3 extra labels, random letter case, near misses at label boundaries, reversed labels, the root, unrelated names, RD on/off); each table is run as generated and with routes and suffixes permuted; oracle: reference longest-suffix model (whole labels, ASCII case-insensitive): forge => NXDOMAIN and no upstream asked, forward+RD => own answer from exactly that route's upstream, forward without RD => REFUSED and nobody asked, no route => SERVFAIL; outcomes equal under permutation; non-trivial = a name matching suffixes of >= 2 routes, or differing in case from the configured suffix");
+            ctx.rule("routes: generated route tables (1..6 routes, 0..4 suffixes each over a 7-label alphabet so nesting and siblings are common, \"\" default, forward / forge-nxdomain; one scripted upstream per forward route; suffixes optionally written in upper case) x 4..30 names (suffix + 0..3 extra labels, class IN and (a third) CH/HS/CSNET/NONE, random letter case, near misses at label boundaries, reversed labels, the root, unrelated names, RD on/off); each table is run as generated and with routes and suffixes permuted; oracle: reference longest-suffix model (whole labels, ASCII case-insensitive): forge => NXDOMAIN and no upstream asked, forward+RD => own answer from exactly that route's upstream, forward without RD => REFUSED and nobody asked, no route => SERVFAIL; outcomes equal under permutation; non-trivial = a name matching suffixes of >= 2 routes, or differing in case from the configured suffix");
             if !wire_ok {
                 ctx.set_inconclusive("C15 is decided on the wire only and the wire rig is unavailable");
             } else {
@@ -195,7 +196,7 @@ pub fn run_check(id: &str, tier: Tier) -> i32 {
                 props_dnswire2::run_c05_wire(&ctx);
             }
             if wire_ok && ctx.violations.lock().unwrap().is_empty() {
-                ctx.rule("wire-dhcp: batches of 16..64 hostile DHCP payloads (seed messages, boundary-family members, every hlen 0..255, every message type, option-length families) broadcast to the real erbium-dhcp over a veth pair; after every batch: no new panic line in the server log, process alive, a well-formed DISCOVER answered");
+                ctx.rule("wire-dhcp: batches of 16..64 hostile DHCP payloads (seed messages, boundary-family members, every hlen 0..255, every message type, option-length families), preceded by the complete family of text/list options of 256..1180 octets split over several instances (RFC 3396; 1848 messages: 11 options x 8 lengths x 21 fills - ASCII, invalid UTF-8, 2/3/4-octet characters at every alignment - in three instance layouts), broadcast to the real erbium-dhcp over a veth pair; after every batch: no new panic line in the server log, process alive, a well-formed DISCOVER answered");
                 props_netwire::run_c05_dhcp_wire(&ctx);
             }
         }
@@ -205,7 +206,7 @@ pub fn run_check(id: &str, tier: Tier) -> i32 {
             props_policy::run_c02(&ctx);
         }
         "C11" => {
-            ctx.rule("options: generated policy trees (conditions: match-subnet, match-hardware-address, match-host-name/class-id/user-class with value or null; apply-<option> with value or null over 20 options with unambiguous RFC 2132 encodings; top-level dns-servers with $self4/IPv6 entries, dns-search, captive-portal; interface MTU and router) x requests (receiving address, chaddr, option values, parameter request list incl. empty and absent); oracle: independent model of the manual's semantics, options(reply) == model as a map code -> bytes (domain search compared as a decoded list); non-trivial = two siblings match, an inner policy or a policy overrides an outer/default value, null unsets, or an applied option is withheld by the parameter list");
+            ctx.rule("options: generated policy trees (conditions: match-subnet, match-hardware-address, match-host-name/class-id/user-class with value or null; apply-<option> with value or null over 20 options with unambiguous RFC 2132 encodings; top-level dns-servers with $self4/IPv6 entries, dns-search, captive-portal; interface MTU and router) x requests (three in four preceded by another client's request on the same address seen with other interface facts, which must change nothing) (receiving address, chaddr, option values, parameter request list incl. empty and absent); oracle: independent model of the manual's semantics, options(reply) == model as a map code -> bytes (domain search compared as a decoded list); non-trivial = two siblings match, an inner policy or a policy overrides an outer/default value, null unsets, or an applied option is withheld by the parameter list");
             ctx.assume("unconstrained (manual silent): netmask/broadcast when two different matching subnets are in play; empty list values; options 53/54/51 are protocol fields");
             props_policy::run_c11(&ctx);
         }
@@ -223,7 +224,7 @@ pub fn run_check(id: &str, tier: Tier) -> i32 {
             }
         }
         "C17" => {
-            ctx.rule("build: generated interface sections (every field absent/null/value; lifetimes {0,1,8,600,1800,9000,9001,65535,65536,4294967,4294968,2^31,2^32-1,2^32,random} written as integers, '<n>s', mixed units or digit strings; 0..6 prefixes of any length with and without host bits; RDNSS 0..8 incl. $self6; DNSSL lists of 0..5 (1 in 25: 7..10 names of ~250 octets, i.e. more than one option can hold) domains of 1..8 labels of 1..63 octets, plus labels of 64..400 octets and names above 255 octets as unrepresentable values; PREF64 lengths {32,40,48,56,64,96}; URLs 0..240 octets) plus top-level defaults, rendered to YAML, loaded through the real loader, built by the pure builder, serialised, and decoded by a decoder written from RFC 4861/8106/8781/8910; oracle: decoded == expected(config), reserved fields zero, unrepresentable values rejected or clamped; non-trivial = >= 3 option kinds in the message or an unrepresentable value");
+            ctx.rule("build: generated interface sections (every field absent/null/value; lifetimes {0,1,8,600,1800,9000,9001,65535,65536,4294967,4294968,2^31,2^32-1,2^32,random} written as integers, '<n>s', mixed units or digit strings; 0..6 prefixes of any length with and without host bits, addresses from the documentation range, random, and one of each special-purpose class (unspecified, loopback, link-local, site-local, ULA, multicast, v4-mapped, 6to4, Teredo); RDNSS 0..8 incl. $self6; DNSSL lists of 0..5 (1 in 25: 7..10 names of ~250 octets, i.e. more than one option can hold) domains of 1..8 labels of 1..63 octets, plus labels of 64..400 octets and names above 255 octets as unrepresentable values; PREF64 lengths {32,40,48,56,64,96}; URLs 0..240 octets) plus top-level defaults, rendered to YAML, loaded through the real loader, built by the pure builder, serialised, and decoded by a decoder written from RFC 4861/8106/8781/8910; oracle: decoded == expected(config), reserved fields zero, unrepresentable values rejected or clamped; non-trivial = >= 3 option kinds in the message or an unrepresentable value");
             ctx.assume("the mtu / lifetime tri-state resolution against interface and routing table lives in the impure wrapper and is decided by the wire tier; the hook takes the resolved values as parameters");
             props_ra::run_c17_func(&ctx);
             if wire_ok && ctx.violations.lock().unwrap().is_empty() {
@@ -242,7 +243,7 @@ pub fn run_check(id: &str, tier: Tier) -> i32 {
             }
         }
         "C06" => {
-            ctx.rule("cache-model: generated query sequences (keys with near misses: label/type/DO/CD/case; replies with 0..12 records, TTLs {0,1,2,59,600,2^31,2^32-1,random} over three sections, cached error kinds) x clock moves (fixed steps and placements at +-2 s around the entry's smallest TTL in 250 ms steps) x sweeps, driven through the cache's own functions in handle_query order under tokio's paused clock; oracle: reference cache model; non-trivial = near-miss lookup, hit within 1 s of expiry, or hit on a reply with >=2 distinct TTLs in >=2 sections");
+            ctx.rule("cache-model: generated query sequences (keys with near misses: label/type/DO/CD/case/printed-alike framing (a dot inside a label against a label boundary, an octet against its backslash-decimal spelling); lookups are unconstrained while another spelling of the name in letter case is resolved; replies with 0..12 records, TTLs {0,1,2,59,600,2^31,2^32-1,random} over three sections, cached error kinds) x clock moves (fixed steps and placements at +-2 s around the entry's smallest TTL in 250 ms steps) x sweeps, driven through the cache's own functions in handle_query order under tokio's paused clock; oracle: reference cache model; non-trivial = near-miss lookup, hit within 1 s of expiry, or hit on a reply with >=2 distinct TTLs in >=2 sections");
             props_dnsfunc::run_c06_func(&ctx);
             if wire_ok && ctx.violations.lock().unwrap().is_empty() {
                 ctx.rule("wire-cache: 40 (thorough 200) names with 1..5 records of TTL 1..4 s over the three sections through the real erbium-dns; right after the first resolution four near-miss queries (other type, DO set, CD set, class CH) must each reach the upstream; the exact query is repeated at +0.4..+5.4 s: answered from cache (upstream counter still) only within minTTL (+1 s clock slack), TTLs aged and never above the original");
@@ -253,7 +254,7 @@ pub fn run_check(id: &str, tier: Tier) -> i32 {
             ctx.rule("bucket: burst B and rate R inferred black-box, then generated arrival sequences (dt in {0,1,2,10,49,50,51,10^4} s, sizes 0..3.2B) applied check-then-deplete as the limiter does, on a harness clock; oracle: every window's granted volume <= B + R*span (+R per grant rounding), idle >= B/R => request <= B granted; non-trivial = grant after a denial or an idle gap");
             props_dnsfunc::run_c16_func(&ctx);
             if wire_ok && ctx.violations.lock().unwrap().is_empty() {
-                ctx.rule("wire-limiter: first a steady flood of 20 refused queries a second from one source for 35 s (thorough 100 s), which must get no more REFUSED than burst + rate x time allows however the seconds fall; then on a fresh erbium-dns per case: (1) 1..4 sources that never spoke send one refused (ANY) query each over UDP and must get one REFUSED; (2) a burst of 200..2000 refused queries from one source address (spread over eight source ports) gets REFUSED for at most a quarter, and not more than a 200-query burst from another source (+2), and a second burst from the same source 0.3 s later gets at most 2; (3) a server cookie obtained from an answered query exempts a 60-query burst only with the same client cookie, source and server address; presented from another source, to another server address, with a flipped bit, with an invented server part, after a restart, or with a server part computed by the public algorithm (HMAC-SHA256 over client cookie, server address, client address) under a guessable key (all-zero, all-ones, 01..08), or cut to 1, 8 or 16 octets of server part it does not; (4) a source past its allowance tries all 256 one-octet server parts, none of which may exempt it");
+                ctx.rule("wire-limiter: first a steady flood of 20 refused queries a second from one source for 35 s (thorough 100 s), which must get no more REFUSED than burst + rate x time allows however the seconds fall; then on a fresh erbium-dns per case: (1) 1..4 sources that never spoke send one refused (ANY) query each over UDP and must get one REFUSED; (the server has two listening sockets: a dual-stack one and a v4 one on the next port; a source past its allowance at one must get nothing more at the other) (2) a burst of 200..2000 refused queries from one source address (spread over eight source ports) gets REFUSED for at most a quarter, and not more than a 200-query burst from another source (+2), and a second burst from the same source 0.3 s later gets at most 2; (3) a server cookie obtained from an answered query exempts a 60-query burst only with the same client cookie, source and server address; presented from another source, to another server address, with a flipped bit, with an invented server part, after a restart, or with a server part computed by the public algorithm (HMAC-SHA256 over client cookie, server address, client address) under a guessable key (all-zero, all-ones, 01..08), or cut to 1, 8 or 16 octets of server part it does not; (4) a source past its allowance tries all 256 one-octet server parts, none of which may exempt it");
                 ctx.assume("key rotation (24..36 h) cannot be driven in a running server: acceptance under the previous key and rejection after two rotations are not covered");
                 props_dnswire2::run_c16_wire(&ctx);
             }
